@@ -4,7 +4,7 @@
    action ([react]) and must predict the same observation. *)
 From Coq Require Import List ZArith Bool Lia.
 Import ListNotations.
-From Goat Require Import Model.Client.
+From Goat Require Import Base.Explore Model.Client.
 Open Scope Z_scope.
 
 Record obs := mkObs {
@@ -62,6 +62,98 @@ Definition multiset_eqb {A} (f : A -> A -> bool) (a b : list A) : bool :=
 
 Definition pair_eqb (a b : Z * Z) : bool := (fst a =? fst b) && (snd a =? snd b).
 
+(* ---- structural equality on states (for the visited set of the exploration) ---- *)
+Definition chan_eqb (a b : chan) : bool := opt_eqb env_eqb (cbuf a) (cbuf b) && Bool.eqb (cclosed a) (cclosed b).
+Definition cpc_eqb (a b : cpc) : bool :=
+  match a, b with
+  | PCheck x, PCheck y => Bool.eqb x y
+  | PParked, PParked | PReg, PReg | PWait, PWait | PRet, PRet | POpen, POpen | POpenFailed, POpenFailed => true
+  | PUnreg x, PUnreg y => ures_eqb x y
+  | POpenUnreg x, POpenUnreg y => cerr_eqb x y
+  | _, _ => false
+  end.
+Definition slpc_eqb (a b : slpc) : bool :=
+  match a, b with
+  | LRead, LRead | LExit, LExit | LTdUnreg, LTdUnreg | LDead, LDead => true
+  | LHand x, LHand y => x =? y
+  | _, _ => false
+  end.
+Definition rpc_eqb (a b : rpc) : bool :=
+  match a, b with
+  | RNone, RNone | RParked, RParked | RSel, RSel | RFinal, RFinal => true
+  | RCheck x, RCheck y => Bool.eqb x y
+  | _, _ => false
+  end.
+Definition opc_eqb (a b : opc) : bool := match a, b with ONone, ONone | OPending, OPending => true | _, _ => false end.
+Definition ctxst_eqb (a b : ctxst) : bool :=
+  match a, b with CtxLive, CtxLive | CtxCanceled, CtxCanceled | CtxDeadline, CtxDeadline => true | _, _ => false end.
+Definition call_eqb (a b : call) : bool :=
+  Bool.eqb (k_unary a) (k_unary b) && (k_payload a =? k_payload b) && cpc_eqb (k_pc a) (k_pc b) && (k_id a =? k_id b)
+  && chan_eqb (k_chan a) (k_chan b) && Bool.eqb (k_reg a) (k_reg b) && ctxst_eqb (k_ctx a) (k_ctx b)
+  && slpc_eqb (s_loop a) (s_loop b) && Bool.eqb (s_ctxc a) (s_ctxc b) && opt_eqb hres_eqb (s_latch a) (s_latch b)
+  && Bool.eqb (s_rchclosed a) (s_rchclosed b) && Bool.eqb (s_done a) (s_done b) && opt_eqb cerr_eqb (s_rerr a) (s_rerr b)
+  && opt_eqb mdv_eqb (s_trl a) (s_trl b) && opt_eqb cerr_eqb (l_rerr a) (l_rerr b) && opt_eqb mdv_eqb (l_trl a) (l_trl b)
+  && Bool.eqb (l_hastrl a) (l_hastrl b) && Bool.eqb (l_abort a) (l_abort b) && rpc_eqb (s_recv a) (s_recv b)
+  && opc_eqb (s_header a) (s_header b) && list_eqb (opt_eqb Z.eqb) (s_sendq a) (s_sendq b)
+  && opc_eqb (s_trailerq a) (s_trailerq b).
+Definition rlpc_eqb (a b : rlpc) : bool :=
+  match a, b with
+  | RLRead, RLRead | RLDead, RLDead => true
+  | RLHold c x, RLHold d y => Nat.eqb c d && env_eqb x y
+  | _, _ => false
+  end.
+Definition state_eqb (a b : state) : bool :=
+  (counter a =? counter b) && Bool.eqb (rerr a) (rerr b) && rlpc_eqb (rl a) (rl b)
+  && list_eqb env_eqb (inbox a) (inbox b) && Bool.eqb (inbox_failed a) (inbox_failed b)
+  && Bool.eqb (wfail a) (wfail b) && list_eqb call_eqb (calls a) (calls b) && list_eqb cev_eqb (log a) (log b).
+
+(* a total preorder on events, to canonicalise the order of the events of one reaction *)
+Definition cerr_code (e : cerr) : list Z :=
+  match e with
+  | EConn => [1] | EClosed => [2] | ECanceled => [3] | EDeadline => [4] | ERawCanceled => [5] | ERawDeadline => [6]
+  | EWrite => [7] | EStatus s => [8; st_code s; st_msg s] | EMalformed => [9] | EUnmarshal => [10] | EReset => [11]
+  | EBadMd => [12] | EEof => [13]
+  end.
+Definition optZ_code (o : option Z) : list Z := match o with None => [0] | Some x => [1; x] end.
+Definition mdv_code (m : option mdv) : list Z := match m with None => [0] | Some MdBad => [1] | Some (MdOk t) => [2; t] end.
+Definition env_code (e : env) : list Z :=
+  eid e :: mdv_code (ehdr e) ++ match estatus e with None => [0] | Some s => [1; st_code s; st_msg s] end
+  ++ optZ_code (ebody e) ++ mdv_code (etrl e) ++ [if erst e then 1 else 0].
+Definition cev_code (e : cev) : list Z :=
+  match e with
+  | EvWrite x => 1 :: env_code x
+  | EvUnhandled i => [2; i]
+  | EvUnaryRet c r => 3 :: Z.of_nat c :: match r with UOk b => [0; b] | UErr x => 1 :: cerr_code x end
+  | EvOpenRet c r => 4 :: Z.of_nat c :: match r with None => [0] | Some x => 1 :: cerr_code x end
+  | EvRecvRet c r => 5 :: Z.of_nat c :: match r with RMsg b => [0; b] | RErr x => 1 :: cerr_code x end
+  | EvSendRet c r => 6 :: Z.of_nat c :: match r with None => [0] | Some x => 1 :: cerr_code x end
+  | EvCloseSendRet c r => 7 :: Z.of_nat c :: match r with None => [0] | Some x => 1 :: cerr_code x end
+  | EvHeaderRet c r => 8 :: Z.of_nat c :: match r with inl m => 0 :: mdv_code (Some m) | inr x => 1 :: cerr_code x end
+  | EvTrailerRet c r => 9 :: Z.of_nat c :: optZ_code r
+  | EvPanic c => [10; Z.of_nat c]
+  end.
+Fixpoint lex_leb (a b : list Z) : bool :=
+  match a, b with
+  | [], _ => true
+  | _ :: _, [] => false
+  | x :: a', y :: b' => if x <? y then true else if y <? x then false else lex_leb a' b'
+  end.
+Definition cev_leb (a b : cev) : bool := lex_leb (cev_code a) (cev_code b).
+
+(* the events logged since [base] in canonical order *)
+Definition canon (base : nat) (s : state) : state :=
+  mkState (counter s) (rerr s) (rl s) (inbox s) (inbox_failed s) (wfail s) (calls s)
+          (firstn base (log s) ++ sort_by cev_leb (skipn base (log s))).
+
+Definition int_succs (base : nat) (s : state) : list state :=
+  map (canon base) (filter_map (fun r => r s) (rules s)).
+
+(* every quiescent state the model can reach in reaction to one environment action,
+   over all orders of the internal rules *)
+Definition react_all (s : state) (a : act) : option (list state) :=
+  let s1 := ext s a in
+  explore state_eqb (int_succs (length (log s))) 20000 [s1] [s1] [].
+
 (* ---- what the model predicts at a quiescent point ---- *)
 Definition is_unhandled (e : cev) : bool := match e with EvUnhandled _ => true | _ => false end.
 
@@ -79,7 +171,7 @@ Fixpoint pending_from (n : nat) (ks : list call) : list (Z * Z) :=
 
 Definition predict (prev s : state) : obs :=
   mkObs (filter (fun e => negb (is_unhandled e)) (skipn (length (log prev)) (log s)))
-        (if mutex_free s then Some (Z.of_nat (registry_size s)) else None)
+        (Some (Z.of_nat (registry_size s)))
         (pending_from 0 (calls s))
         (Z.of_nat (length (filter loop_alive (calls s))))
         (match rl s with RLDead => 0 | _ => 1 end).
@@ -90,36 +182,36 @@ Definition obs_eqb (a b : obs) : bool :=
   && multiset_eqb pair_eqb (o_pending a) (o_pending b)
   && (o_loops a =? o_loops b) && (o_mux a =? o_mux b).
 
-(* index of the first step at which prediction and observation differ *)
-Fixpoint agree_from (i : nat) (s : state) (acts : list act) (observed : list obs) : option nat :=
+(* index of the first step at which no predicted outcome matches the observation; the candidates are
+   the model states compatible with everything observed so far *)
+Fixpoint agree_from (i : nat) (cands : list state) (acts : list act) (observed : list obs) : option nat :=
   match acts, observed with
   | a :: acts', o :: obs' =>
-      let s' := react s a in
-      if obs_eqb (predict s s') o && quiescent s' then agree_from (S i) s' acts' obs' else Some i
+      let nexts := flat_map (fun s => match react_all s a with
+                                      | Some qs => filter (fun s' => obs_eqb (predict s s') o) qs
+                                      | None => []
+                                      end) cands in
+      match dedup state_eqb nexts with
+      | [] => Some i
+      | ns => agree_from (S i) ns acts' obs'
+      end
   | [], [] => None
   | _, _ => Some i
   end.
 
-Fixpoint run_acts (s : state) (acts : list act) : state :=
-  match acts with [] => s | a :: t => run_acts (react s a) t end.
-
 Definition agrees (c : ccase) : bool :=
   match c with
-  | CClient acts observed => match agree_from 0 init acts observed with None => true | Some _ => false end
+  | CClient acts observed => match agree_from 0 [init] acts observed with None => true | Some _ => false end
   | CClientWedged acts observed pending =>
-      (* the steps completed before the wedge agree, and the model too ends with the registry lock held
-         by the blocked read loop and the same operations pending *)
-      match agree_from 0 init (firstn (length observed) acts) observed with
-      | None => let s := run_acts init acts in
-                wedged s && multiset_eqb pair_eqb (pending_from 0 (calls s)) pending
-      | Some _ => false
-      end
+      (* the model has no state in which a goroutine waits for a mutex for ever: a wedge observed on the
+         real code is always a disagreement *)
+      false
   end.
 
 Definition first_disagreement (c : ccase) : option nat :=
   match c with
-  | CClient acts observed => agree_from 0 init acts observed
-  | CClientWedged acts observed _ => agree_from 0 init (firstn (length observed) acts) observed
+  | CClient acts observed => agree_from 0 [init] acts observed
+  | CClientWedged acts observed _ => agree_from 0 [init] (firstn (length observed) acts) observed
   end.
 
 (* generic checker: reason 1 = disagreement; the second number is 100 + the
